@@ -143,11 +143,16 @@ def r6_others_complete(chk: Check):
     c06.r3_counter(chk)
 
 
+def r7_done_is_truthful(chk: Check):
+    c06.r2_truthful(chk)
+
+
 RULES = [
     ("R1", "a dependency on a job is FAIL exactly when the upstream job is in ERROR (= C04.R3)", c04.r3_status_mapping),
     ("R2", "cancellation block: FAIL and not finished => ERROR + failure_status DEPENDENCY + wake-up; FAIL on a finished job writes nothing; only fields of self are written", r2_cancellation),
     ("R3", "a cancelled job is never launched: launch needs READY (C04.R1) and ERROR is absorbing, as is DONE (C06.R1 typestate)", r3_never_launched),
     ("R4", "on every live exit of aio_submit, after the state is final, every dependent is re-checked", r4_propagation),
     ("R5", "reporting: failedJobs records exactly the jobs not DONE; wait() raises iff failedJobs; __exit__ waits iff no exception escaped", r5_reporting),
+    ("R7", "a job is DONE only if its process exited with code 0 or its success marker exists (= C06.R2): a killed job is never reported as a success to its dependents or to the experiment", r7_done_is_truthful),
     ("R6", "jobs that do not depend on a failure run to completion: the experiment waits for every registered job (counter pairing, = C06.R3)", r6_others_complete),
 ]
